@@ -504,3 +504,41 @@ func ElementsHazard(au consensus.ApplyUpdate) error {
 	}
 	return gen.AppendHazard(reflect.ValueOf(&o).Elem())
 }
+
+// IngestThenRefresh plays the client that first takes over a block's diffs and then refreshes everything it stores -
+// the elements it has just taken over included - with that same block's update (the order the library's own tests
+// use). For the elements of the diffs the update has nothing to add: they must verify afterwards as they did before.
+func IngestThenRefresh(au consensus.ApplyUpdate, b *ref.Built) error {
+	check := func(se types.StateElement, what string) error {
+		if se.LeafIndex == types.UnassignedLeafIndex {
+			return nil
+		}
+		own := se.Copy()
+		au.UpdateElementProof(&own)
+		if err := ProofEquals(own, b); err != nil {
+			return fmt.Errorf("%s (leaf %d) taken from the block's own diff and then refreshed with the same update: %v", what, se.LeafIndex, err)
+		}
+		return nil
+	}
+	for _, d := range au.SiacoinElementDiffs() {
+		if err := check(d.SiacoinElement.StateElement, "siacoin element"); err != nil {
+			return err
+		}
+	}
+	for _, d := range au.SiafundElementDiffs() {
+		if err := check(d.SiafundElement.StateElement, "siafund element"); err != nil {
+			return err
+		}
+	}
+	for _, d := range au.FileContractElementDiffs() {
+		if err := check(d.FileContractElement.StateElement, "file contract element"); err != nil {
+			return err
+		}
+	}
+	for _, d := range au.V2FileContractElementDiffs() {
+		if err := check(d.V2FileContractElement.StateElement, "v2 file contract element"); err != nil {
+			return err
+		}
+	}
+	return check(au.ChainIndexElement().StateElement, "chain index element")
+}
